@@ -28,6 +28,9 @@ def dealias(s):
     return s
 
 
+DT_KEYS = [("2017-01-02T03:04:05Z", "2017-01-02T03:04:05Z"), ("2017-01-02T03:04:05.000000006Z", "2017-01-02T03:04:05.000000006Z")]
+
+
 def valid_values(s, rng, n=2):
     """-> list of (json value, canonical json value) valid for shape s"""
     d = dealias(s)
@@ -61,12 +64,16 @@ def valid_values(s, rng, n=2):
         return valid_values(d["kids"][0], rng, n)
     if c in ("list", "set"):
         items = valid_values(d["kids"][0], rng, 2)
+        if c == "set" and dealias(d["kids"][0]) == {"c": "prim", "p": "datetime", "kids": []}:
+            items = DT_KEYS       # compared as text: canonical spellings only
         if c == "set":
             # distinct items; canonical order is the set's order: compared as a set
             return [([i[0] for i in items], {"@set": [i[1] for i in items]}), ([items[0][0]], {"@set": [items[0][1]]})][:n]
         return [([i[0] for i in items], [i[1] for i in items]), ([items[0][0], items[0][0]], [items[0][1], items[0][1]])][:n]
     if c == "map":
         keys = valid_values(d["kids"][0], rng, 2)
+        if dealias(d["kids"][0]).get("p") == "datetime":
+            keys = DT_KEYS        # key texts are compared as text: canonical spellings only
         vals = valid_values(d["kids"][1], rng, 2)
 
         def keytext(k):
@@ -521,7 +528,7 @@ def run(tier, seed):
                 "client deserializers and re-serialised (JSON, Smile). Distinct by (shape, class, config, document); all "
                 "are non-trivial (each exercises a generated Deserialize/Serialize impl).",
         "model_runs": runs, "coverage_by_action": cov, "exhaustive": True,
-        "universe": "103 field shapes: 11 primitives, 3 references, optionals/lists/sets/maps (6 key kinds) of them, "
+        "universe": "115 field shapes: 11 primitives, 3 references, optionals/lists/sets/maps (11 key kinds) of them, "
                     "alias, alias-of-alias, external and alias-of-external wrappers of 12 representatives",
     }
     out.assumptions = ["TLC 1.8.0", "harness/vgen/ir/zoo.json is the IR of the shape universe (bin/gen-vgen)",
